@@ -42,7 +42,15 @@ Record hs_view (isn : Z) (st : net) : Prop := mkHV {
   hv_synseq : forall p, In p (ep_sent (n_a st)) -> r_control (snd p) = CSyn -> r_seq_number (snd p) = isn;
   hv_sub : chan_sub st;
   hv_rx : forall z, TcpRecvBase.rb_wf (s_rx_buffer (net_sock st z)) /\ 0 <= s_remote_win_shift (net_sock st z);
-  hv_mtu : forall z, 52 < cx_ip_mtu (ep_cx (net_get st z))
+  hv_mtu : forall z, 52 < cx_ip_mtu (ep_cx (net_get st z));
+  hv_wf : forall p, In p (ep_sent (n_a st)) -> 0 <= l_len (r_payload (snd p)) <= 65535;
+  hv_tx : forall z, rb_len (s_tx_buffer (net_sock st z)) <= 2 ^ 30;
+  hv_asyn2 : s_state (net_sock st SA) = SynSent ->
+             ep_written (n_a st) = [] /\
+             match rt_max_seq_sent (s_rtte (net_sock st SA)) with
+             | Some m => m = seq_add isn 1
+             | None => True
+             end
 }.
 
 Lemma hs_view_of_INV Sa Sb isn ga gb st :
@@ -99,6 +107,24 @@ Proof.
   - intros z. destruct z; cbn [net_get].
     + destruct Ea as (_ & (_ & (Hm & _)) & _). apply Hm.
     + destruct Eb as (_ & (_ & (Hm & _)) & _). apply Hm.
+  - intros p Hp. destruct Dab as (Hgood & _). exact (proj1 (Hgood p Hp)).
+  - intros z. destruct z; unfold net_sock; cbn [net_get].
+    + destruct Ea as (((Hwf & Hcap & _) & _) & _). destruct Hwf as ((_ & Hl) & _). lia.
+    + destruct Eb as (((Hwf & Hcap & _) & _) & _). destruct Hwf as ((_ & Hl) & _). lia.
+  - intros Hst. unfold net_sock in *. cbn [net_get] in *.
+    destruct Ea as (Hinv & _ & _ & Htxl & _).
+    destruct Hinv as ((Hwf & _ & Ha0 & Hal & _ & _ & _ & _ & _ & Hph & _) & _ & (Hhw & Hmsx & _)).
+    unfold SI.phase_ok in Hph. rewrite Hst in Hph.
+    destruct (SI.g_phase (C.eg_tx ga)) eqn:Ep; try contradiction.
+    2:{ destruct Hph as (_ & _ & _ & []). }
+    destruct Hph as (Hac & Hl0 & Hgf).
+    destruct Htxl as [(Hs & _) | (Hd & _)]; [|rewrite Hst in Hd; discriminate].
+    assert (Hw0 : l_len (ep_written (n_a st)) = 0) by (rewrite <- Hs; lia).
+    split; [apply TcpSendBase.l_len_zero_nil; exact Hw0|].
+    destruct (rt_max_seq_sent (s_rtte (ep_sock (n_a st)))) as [m|]; [|exact I].
+    destruct Hmsx as (k & Hm & Hk). rewrite Hs, Hw0, Hgf in Hhw. cbn in Hhw. assert (k = 1) by lia. subst k.
+    destruct Hgiss as [E | (Hd & _)]; [|rewrite Hst in Hd; discriminate].
+    rewrite Hm, <- E, seq_add_sq. reflexivity.
 Qed.
 
 Definition INVo (isn : Z) (st : net) : Prop := exists Sa Sb ga gb, C.INV Sa None Sb None isn ga gb st.
@@ -187,7 +213,7 @@ Lemma pre_quiet st w e' :
   ep_cx e' = ep_cx (net_get st w) ->
   pre_hs (net_set st w e').
 Proof.
-  intros HP (Q1 & Q2 & Q3 & Q4 & Q5 & Q6 & Q7 & _) Hnk Hws Hout Hcl Hwr Hcx.
+  intros HP (Q1 & Q2 & Q3 & Q4 & Q5 & Q6 & Q7 & _ & _) Hnk Hws Hout Hcl Hwr Hcx.
   assert (Gw : net_get (net_set st w e') w = e') by apply net_get_set_same.
   assert (Go : net_get (net_set st w e') (side_other w) = net_get st (side_other w)) by apply net_get_set_other.
   assert (Ec : forall z, chan_to (net_set st w e') z = chan_to st z).
@@ -366,7 +392,7 @@ Qed.
 Lemma hs_A_est st ev ev0 e' :
   NI st -> opts_ok st -> hs_view isn st -> pre_hs st -> s_state (sa st) = Established ->
   script_ev SA ev -> sock_event st ev SA ev0 ->
-  ep_step (n_a st) ev0 = Ok e' -> pre_hs (net_set st SA e').
+  ep_step (n_a st) ev0 = Ok e' -> pre_hs (net_set st SA e') /\ s_state (ep_sock e') = Established.
 Proof.
   intros HN Ho HV HP Hst Hsc Hse He.
   destruct (ep_step_spec _ _ _ He) as (s' & out & tags & Hs & Hk & Hcx & Hout & _ & Hwr & _ & _ & Hcl).
@@ -404,6 +430,7 @@ Proof.
     as ((S1 & S2 & _) & Hemit).
   pose proof (est_event_ws _ _ _ _ _ _ tA Hrun Hnc Hs Hst T1 T2 T4 W1 W2 Hseg) as Hws'.
   destruct (step_noka _ _ _ _ _ _ Hrun Hs Hka (ph_noka st HP SA)) as (_ & Hnk').
+  split; [|rewrite Hk, S1; exact Hst].
   constructor; unfold net_sock, chan_to; cbn [net_set net_get side_other n_a n_b].
   - right. rewrite Hk, S1. split; [exact Hst | exact Hsb].
   - intros z. destruct z; cbn [net_get n_a n_b]; [|exact (ph_closed st HP SB)].
@@ -651,7 +678,7 @@ Proof.
     unfold mirror in D1, D2, D3, D4. cbn [tu_local_addr tu_remote_addr tu_local_port tu_remote_port] in D1, D2, D3, D4.
     unfold wire_parse in R3, R4. cbn [r_src_port r_dst_port] in R3, R4.
     split; [unfold sent_to; rewrite R1, R2, R3, R4; auto|]. auto. }
-  destruct B5 as [(Est' & Hlsn') | (Est' & Hlsn')].
+  destruct B5 as [(Est' & Hlsn' & _) | (Est' & Hlsn')].
   - (* B stays in SYN-RECEIVED *)
     left.
     assert (Hnx : tcp_send_next_seq s' = seq_add (s_local_seq_no s') 1).
@@ -761,7 +788,7 @@ Proof.
         -- right. eexists. reflexivity.
         -- rewrite Hsa. discriminate.
     + (* ESTABLISHED *)
-      left. exact (hs_A_est st ev ev0 e' HN Ho HV HP Hsa Hsc Hse He).
+      left. exact (proj1 (hs_A_est st ev ev0 e' HN Ho HV HP Hsa Hsc Hse He)).
   - (* an event of B *)
     assert (Hsb : s_state (sb st) = Listen \/ s_state (sb st) = SynReceived).
     { destruct (ph_phase st HP) as [(_ & X) | (_ & X)]; [exact X | right; exact X]. }
